@@ -336,7 +336,13 @@ where
             !info.is_empty_code_hash() &&
             info.code.is_none()
         {
-            info.code = Some(self.code_by_address(address, info.code_hash)?);
+            // Attaching the code here is a prefetch: in-order execution loads an account's code
+            // only when it needs it. A backing-store failure of the prefetch must therefore not
+            // fail the account read; if the code is needed, revm asks for it by hash and the
+            // failure (if it persists) is reported then, as in-order execution reports it.
+            if let Ok(code) = self.code_by_address(address, info.code_hash) {
+                info.code = Some(code);
+            }
         }
         Ok(result)
     }
